@@ -40,12 +40,14 @@ def run(ctx):
     ctx.rule('C06.a-check-before-use', 'no panic-capable sink is reached by an unchecked caller-supplied scalar')
     ctx.rule('C06.b-truthful', 'each Error construction is governed by the documented violated precondition and its fields equal the operands of that condition')
     ctx.rule('C06.c-passthrough', 'errors of callees are propagated by bare `?` / tail return, never re-mapped')
+    ctx.rule('C06.d-config-handover', 'the counts and shard size stored in the work object (against which indexes and sizes are later checked) are exactly the caller\'s original_count, recovery_count, shard_bytes')
     for cfg in cfgs:
         facts = ctx.facts(cfg)
         ctx.guard('C06.analysable', check_taint, ctx, facts, cfg)
         if cfg == cfgs[0]:
             ctx.guard('C06.analysable', check_truthful, ctx, facts, cfg)
             ctx.guard('C06.analysable', check_passthrough, ctx, facts, cfg)
+            ctx.guard('C06.analysable', check_config_handover, ctx, facts, cfg)
 
 
 # ------------------------------------------------------------------------------ (a)
@@ -359,3 +361,34 @@ def check_passthrough(ctx, facts, cfg):
         else:
             ctx.ok(R, fn.path, None)
     ctx.floor(R, 40, n, 'Result-returning API functions', cfg=cfg)
+
+
+# ------------------------------------------------------------------------------ (d)
+
+def check_config_handover(ctx, facts, cfg):
+    R = 'C06.d-config-handover'
+    RL = roles_mod.roles(facts)
+    n = 0
+    for side in ('enc', 'dec'):
+        full = RL.fn.get(side + '.reset')
+        if full is None:
+            ctx.violation(R, 'role-missing:%s.reset' % side, 'unrecognised idiom: explicit reset of the work object not identified', fn=side, cfg=cfg)
+            continue
+        for p, fn in sorted(facts.fns.items()):
+            for b, t in fn.body.calls():
+                if t['callee'].get('path') != full:
+                    continue
+                n += 1
+                pn = fn.param_names()
+                usz = [x for i, x in enumerate(pn) if fn.body.local_ty(i + 1) == 'usize']
+                got = [fn.body.canon_op(a) for a in t['args'][1:4]]
+                want = [('param', x) for x in usz[:3]]
+                # the caller's own (o, r, sb) must in turn be the public trait arguments: callers are reached by
+                # forwarding from RateEncoder/RateDecoder::{new,reset} (checked by C08.c: validate on the same triple)
+                if len(usz) >= 3 and got == want:
+                    ctx.ok(R, '%s->%s@%s' % (p, core.short(full), cfg), {'site': t['line']})
+                else:
+                    ctx.violation(R, 'altered-config:%s' % core.short(p)[:60],
+                                  '%s configures the work object with (%s) instead of its own (original_count, recovery_count, shard_bytes) = (%s): later index / size checks and error values use the altered numbers'
+                                  % (p, ', '.join(core.show(g) for g in got), ', '.join(usz[:3])), site=t['line'], fn=p, cfg=cfg)
+    ctx.floor(R, 4, n, 'call sites of the explicit reset', cfg=cfg)
